@@ -72,7 +72,7 @@ impl FeatureNextBackFn {
             quote! {
                 /// Returns the previous element before this in value order
                 #vis fn #ident_next_back(self) -> ::core::option::Option<Self> {
-                    use ::core::iter::DoubleEndedIterator;
+                    use ::core::iter::DoubleEndedIterator as _;
                     use ::core::option::Option::Some;
                     let mut current = self as #repr;
                     let mut it = Self::#ident_table_range.iter();
